@@ -1,7 +1,7 @@
 /-
 Property C15: the method inventory.  EVERY method and property of `FileSystem`, `Folder`, `File` and `FileSystemItemABC`
 is either modelled — and then some obligation reads its source (textual snapshot `C15_gen_source_snapshot`, statement
-translation `C15_gen_restore_file` / `C15_gen_add_file`, guard table `C15_gen_guards`, request trees) — or listed here as
+translation `C15_gen_restore_file` / `C15_gen_add_file` / `C15_gen_file_methods` / `C15_gen_folder_methods`, request trees) — or listed here as
 NOT modelled with the reason.  A method added to one of the four classes breaks `C15_gen_method_inventory` until it is
 classified; a method marked modelled that no extractor reads, or the other way round, breaks `C15_modelled_iff_tied`.
 -/
@@ -11,6 +11,7 @@ namespace Primaite.FileSystem
 /-- (method, modelled?, where it lives in the model / why it is not modelled) in source order. -/
 def methodTable : List (String × Bool × String) :=
   [("FileSystem.__init__", true, "init: the root folder"),
+   ("FileSystem.setup_for_episode", true, "setupForEpisode: the episode starts with both counters at zero"),
    ("FileSystem._init_request_manager", true, "ofRequest / resolve; validators = the guards of step"),
    ("FileSystem.size", false, "sizes are not modelled"),
    ("FileSystem.show_num_files", false, "printing"),
@@ -58,24 +59,24 @@ def methodTable : List (String × Bool × String) :=
    ("Folder.quarantine_status", false, "stub (pass)"),
    ("Folder.scan", true, "Folder.verb .scan + ledger scanStart; instant branch = scanAll"),
    ("Folder.reveal_to_red", false, "revealed_to_red flags are not modelled"),
-   ("Folder.check_hash", true, "Folder.verb .checkhash (always False)"),
+   ("Folder.check_hash", true, "Folder.verb .checkhash (always False); translated"),
    ("Folder.repair", true, "Folder.verb .repair + reqTouch"),
-   ("Folder.restore", true, "Folder.restore"),
+   ("Folder.restore", true, "Folder.restore (translated with the folder's health)"),
    ("Folder.corrupt", true, "Folder.verb .corrupt + reqTouch"),
-   ("Folder.delete", true, "the flag set by deleteFolder"),
+   ("Folder.delete", true, "the flag set by deleteFolder (translated)"),
    ("File.__init__", false, "constructor: file type, size and sim_path are not modelled"),
    ("File.path", false, "string property"),
    ("File.size", false, "sizes are not modelled"),
    ("File.apply_timestep", false, "calls super() only: no effect"),
    ("File.pre_timestep", true, "stepX .preTick (num_access := 0)"),
    ("File.describe_state", false, "health, size, type; the rig reads uuid and num_access from it"),
-   ("File.scan", true, "File.verb .scan + touch"),
+   ("File.scan", true, "File.verb .scan + touch (translated with health)"),
    ("File.reveal_to_red", false, "revealed_to_red flags are not modelled"),
-   ("File.check_hash", true, "File.verb .checkhash (always False)"),
-   ("File.repair", true, "File.verb .repair + touch"),
-   ("File.corrupt", true, "File.verb .corrupt + touch"),
-   ("File.restore", true, "File.restore + touch"),
-   ("File.delete", true, "File.delete + touch"),
+   ("File.check_hash", true, "File.verb .checkhash (always False); translated"),
+   ("File.repair", true, "File.verb .repair + touch (translated with health)"),
+   ("File.corrupt", true, "File.verb .corrupt + touch (translated with health)"),
+   ("File.restore", true, "File.restore + touch (translated with health)"),
+   ("File.delete", true, "File.delete + touch (translated with health)"),
    ("File.show", false, "printing"),
    ("FileSystemItemABC.describe_state", false, "health / visible status / hash / revealed_to_red are C14's and C09's"),
    ("FileSystemItemABC._init_request_manager", true, "the five item verbs (Verb, verbOf)"),
